@@ -1,8 +1,8 @@
 (* The simplex-noise bound for the ROUNDED evaluation: the IEEE-754 binary64 instance of
    simplex_noise_1d (Signal/Osc.v at NumF64: every + - * is Flocq's Bplus/Bminus/Bmult, round to
    nearest even; floor is Bnearbyint mode_DN; `as i64` is the saturating truncation) returns a finite
-   value in [-1, 1] for every finite argument of magnitude at most 2^52 -- in particular for every
-   phase in [0, 65536) that Phase::next_phase_wrapped_to(65536.0) hands it -- and hence every frame
+   value in [-1, 1] for every finite argument in [-2^63, 2^63), the range on which `as i64` does not
+   saturate (beyond it x0 is huge and x0*x0 overflows) -- in particular for every phase in [0, 65536) that Phase::next_phase_wrapped_to(65536.0) hands it -- and hence every frame
    of every NoiseSimplex run on a public step source outside the known class K1.
 
    Route: (1) floor / `as i64` / `i0 as f64` are exact, so x0 = rnd (x - floor x) is a float in [0, 1];
@@ -38,29 +38,48 @@ Proof.
 Qed.
 
 (* --- floor, `as i64`, `as f64` ---------------------------------------------------------- *)
-Definition two52 : Z := 4503599627370496.
+Definition two63 : Z := 9223372036854775808.
 
-Lemma floor_i64 (x : f64) : fin x -> Rabs (B2R x) <= IZR two52 ->
-  nto_i64 F (nfloor F x) = Zfloor (B2R x) /\ (Z.abs (Zfloor (B2R x)) <= two52)%Z.
+(* an integer that is a binary64 number converts exactly *)
+Lemma f64_ofZ_fmt (z : Z) : fmt64 (IZR z) -> Rabs (IZR z) < bpow radix2 1024 ->
+  fin (F64.of_Z z) /\ B2R (F64.of_Z z) = IZR z.
+Proof.
+  intros Hf Hb. unfold F64.of_Z, gof_Z.
+  pose proof (@binary_normalize_correct 53 1024 p53 pe53 mode_NE z 0 false) as H.
+  cbv zeta in H. simpl round_mode in H.
+  assert (E : F2R (Float radix2 z 0) = IZR z) by (unfold F2R; simpl; ring).
+  rewrite E in H. rewrite round_generic in H; auto with typeclass_instances.
+  rewrite Rlt_bool_true in H by exact Hb.
+  destruct H as (H1 & H2 & _). auto.
+Qed.
+
+(* on the range where `as i64` does not saturate: floor is exact, the cast returns it, and converting it
+   back (`i0 as f64`) is exact because the floor of a float is a float *)
+Lemma floor_i64 (x : f64) : fin x -> - IZR two63 <= B2R x < IZR two63 ->
+  nto_i64 F (nfloor F x) = Zfloor (B2R x) /\
+  fin (F64.of_Z (Zfloor (B2R x))) /\ B2R (F64.of_Z (Zfloor (B2R x))) = IZR (Zfloor (B2R x)).
 Proof.
   intros Fx Hx. cbn [NumF64 nto_i64 nfloor]. unfold F64.to_Z_sat, F64.floor, gfloor.
   destruct (Bnearbyint_correct 53 1024 pe53 mode_DN x) as (V & Ff & _).
   rewrite Fx in Ff. cbn [round_mode] in V. rewrite round_FIX_IZR in V.
   rewrite (to_Z_sat_finite 53 1024 pe53 _ _ _ Ff). rewrite V, Ztrunc_IZR.
-  assert (Hz : (- two52 <= Zfloor (B2R x) <= two52)%Z).
-  { apply Rabs_le_inv in Hx. split.
+  assert (Hz : (- two63 <= Zfloor (B2R x) < two63)%Z).
+  { split.
     - apply Zfloor_lub. rewrite opp_IZR. lra.
-    - apply le_IZR. eapply Rle_trans; [apply Zfloor_lb|lra]. }
-  split; [|lia]. unfold i64_min, i64_max, two52 in *. lia.
+    - apply lt_IZR. eapply Rle_lt_trans; [apply Zfloor_lb|lra]. }
+  split; [unfold i64_min, i64_max, two63 in *; lia|].
+  apply f64_ofZ_fmt.
+  - rewrite <- V. apply generic_format_B2R.
+  - rewrite <- abs_IZR. apply Rlt_le_trans with (IZR (2 ^ 64)); [apply IZR_lt; unfold two63 in Hz; lia|].
+    change 2%Z with (radix_val radix2). rewrite IZR_Zpower by lia. apply bpow_le. lia.
 Qed.
 
 (* x0 = x - i0 as f64 : a float in [0, 1] *)
-Lemma residual_ok (x : f64) : fin x -> Rabs (B2R x) <= IZR two52 ->
+Lemma residual_ok (x : f64) : fin x -> - IZR two63 <= B2R x < IZR two63 ->
   let x0 := nsub F x (nof_Z F (nto_i64 F (nfloor F x))) in
   fin x0 /\ 0 <= B2R x0 <= 1.
 Proof.
-  intros Fx Hx. destruct (floor_i64 x Fx Hx) as (-> & Hz). cbv zeta. cbn [NumF64 nsub nof_Z].
-  destruct (f64_ofZ (Zfloor (B2R x))) as (Fi & Vi); [unfold two52 in Hz; change (2 ^ 53)%Z with 9007199254740992%Z; lia|].
+  intros Fx Hx. destruct (floor_i64 x Fx Hx) as (-> & Fi & Vi). cbv zeta. cbn [NumF64 nsub nof_Z].
   destruct (f64_sub_Z x (F64.of_Z (Zfloor (B2R x))) 0 1 Fx Fi) as (Fs & _ & Hs); [simpl; lia|simpl; lia| |].
   - rewrite Vi. pose proof (Zfloor_lb (B2R x)). pose proof (Zfloor_ub (B2R x)). lra.
   - split; [exact Fs|exact Hs].
@@ -111,7 +130,7 @@ Proof.
 Qed.
 
 (* --- the whole function ------------------------------------------------------------------ *)
-Theorem simplex_ieee (x : f64) : fin x -> Rabs (B2R x) <= IZR two52 ->
+Theorem simplex_ieee (x : f64) : fin x -> - IZR two63 <= B2R x < IZR two63 ->
   fin (simplex_noise_1d F x) /\ -1 <= B2R (simplex_noise_1d F x) <= 1.
 Proof.
   intros Fx Hx. unfold simplex_noise_1d.
@@ -147,7 +166,7 @@ Qed.
 Corollary simplex_ieee_phase (x : f64) : fin x -> 0 <= B2R x < 65536 ->
   fin (simplex_noise_1d F x) /\ -1 <= B2R (simplex_noise_1d F x) <= 1.
 Proof.
-  intros Fx Hx. apply simplex_ieee; [exact Fx|]. apply Rabs_le. unfold two52. lra.
+  intros Fx Hx. apply simplex_ieee; [exact Fx|]. unfold two63. lra.
 Qed.
 
 (* --- every frame of every NoiseSimplex run ------------------------------------------------- *)
